@@ -607,24 +607,49 @@ def run(ctx):
         W = wc[0]
         ctx.fn('write_png_chunk')
         wps = params_of(W)
-        writes = [c for c in walk(body_of(W)) if c.get('kind') in ('CallExpr', 'CXXOperatorCallExpr') and (ref_decl(c['inner'][0] if c.get('kind') == 'CallExpr' else c['inner'][1]) or {}).get('name') == 'writer']
-        seq = []
+        writes = [c for c in walk(body_of(W)) if c.get('kind') in ('CallExpr', 'CXXOperatorCallExpr') and (ref_decl(c['inner'][0] if c.get('kind') == 'CallExpr' else c['inner'][1]) or {}).get('id') == wps[3]['id']]
+
+        def root_decl(e):
+            """the parameter / local an argument expression designates, through casts, & and single-assignment locals"""
+            e = strip(e)
+            for _ in range(6):
+                while e is not None and e.get('kind') in ('ImplicitCastExpr', 'CStyleCastExpr', 'CXXStaticCastExpr', 'CXXReinterpretCastExpr', 'ParenExpr', 'CXXConstCastExpr', 'MaterializeTemporaryExpr') and kids(e):
+                    e = strip(kids(e)[0])
+                if e is not None and e.get('kind') == 'UnaryOperator' and e.get('opcode') == '&':
+                    e = strip(kids(e)[0])
+                    continue
+                if e is not None and e.get('kind') in ('CXXMemberCallExpr', 'CXXOperatorCallExpr') and (call_name(e) or '').startswith('operator '):
+                    e = strip(member_call_object(e) if e.get('kind') == 'CXXMemberCallExpr' else kids(e)[1])
+                    continue
+                rd = ref_decl(e) if e is not None else None
+                if rd is not None and rd.get('kind') == 'VarDecl':
+                    vd = next((v for v in walk(body_of(W)) if v.get('kind') == 'VarDecl' and v.get('id') == rd['id'] and kids(v)), None)
+                    wr = [x for x in walk(body_of(W)) if x.get('kind') in ('BinaryOperator', 'CXXOperatorCallExpr') and (x.get('opcode') == '=' or call_name(x) == 'operator=') and (ref_decl(kids(x)[0] if x.get('kind') == 'BinaryOperator' else kids(x)[1]) or {}).get('id') == rd['id']]
+                    if vd is not None and not wr and '*' in (qtype(vd) or ''):
+                        e = strip(kids(vd)[-1])
+                        continue
+                return rd
+            return None
+        seq_ids = []
         for c in writes:
             a = call_args(c) if c.get('kind') == 'CallExpr' else c['inner'][2:]
-            seq.append((nf(a[0]), nf(a[1])))
-        ctx.check(seq == [('&size', '4'), ('type', '4'), ('data', 'size.operator unsigned int()'), ('&crc', '4')] or
-                  [s_[0] for s_ in seq] == ['&size', 'type', 'data', '&crc'] and seq[0][1] == '4' and seq[1][1] == '4' and seq[3][1] == '4' and 'size' in seq[2][1],
-                  R, 'chunk|field-order', W, 'length, type, data, crc', 'chunk fields are written as %s' % seq)
+            seq_ids.append(((root_decl(a[0]) or {}).get('id'), nf(a[1]), (root_decl(a[1]) or {}).get('id')))
+        crcv = None
+        if len(seq_ids) == 4:
+            crcv = next((v for v in walk(body_of(W)) if v.get('kind') == 'VarDecl' and v.get('id') == seq_ids[3][0]), None)
+        okseq = len(seq_ids) == 4 and seq_ids[0][0] == wps[2]['id'] and seq_ids[0][1] == '4' and seq_ids[1][0] == wps[0]['id'] and seq_ids[1][1] == '4' and \
+            seq_ids[2][0] == wps[1]['id'] and seq_ids[2][2] == wps[2]['id'] and crcv is not None and seq_ids[3][1] == '4'
+        ctx.check(okseq, R, 'chunk|field-order', W, 'length, type, data, crc', 'chunk fields are written as %s' % [(nf((call_args(c) if c.get('kind') == 'CallExpr' else c['inner'][2:])[0]), nf((call_args(c) if c.get('kind') == 'CallExpr' else c['inner'][2:])[1])) for c in writes])
         ctx.check('big_endian<unsigned int>' in (qtype(wps[2]) or '') or 'be_uint32_t' in (qtype(wps[2]) or ''), R, 'chunk|length-big-endian', wps[2], 'length is a big-endian 32-bit wrapper', 'chunk length has type %s' % qtype(wps[2]))
-        crcv = next((v for v in walk(body_of(W)) if v.get('kind') == 'VarDecl' and v.get('name') == 'crc'), None)
         ctx.check(crcv is not None and ('be_uint32_t' in (qtype(crcv) or '') or 'big_endian<unsigned int>' in (dtype(crcv) or '')), R, 'chunk|crc-big-endian', crcv or W, 'crc stored big-endian', 'crc variable has type %s' % (qtype(crcv) if crcv else None))
         crcs = [c for c in walk_deep(body_of(W), u) if c.get('kind') == 'CallExpr' and call_name(c) == 'crc32']
-        okc = len(crcs) == 2
+        okc = len(crcs) == 2 and crcv is not None
         if okc:
             a0, a1 = call_args(crcs[0]), call_args(crcs[1])
-            okc = int_value(a0[0]) == 0 and nf(a0[1]) == 'type' and int_value(a0[2]) == 4 and ('crc' in nf(a1[0]) or (ref_decl(a1[0]) or {}).get('kind') == 'VarDecl') and nf(a1[1]) == 'data' and 'size' in nf(a1[2])
-            d = callee_decl(crcs[0], u)
-            okc = okc and 'unsigned char' in ((d or {}).get('type', {}).get('qualType') or '') + 'Bytef' or okc
+            okc = int_value(a0[0]) == 0 and (root_decl(a0[1]) or {}).get('id') == wps[0]['id'] and int_value(a0[2]) == 4 and (root_decl(a1[0]) or {}).get('id') == crcv['id'] and \
+                (root_decl(a1[1]) or {}).get('id') == wps[1]['id'] and (root_decl(a1[2]) or {}).get('id') == wps[2]['id']
+            # the first value initialises the crc variable, the second is stored back into it
+            okc = okc and any(y is crcs[0] for y in walk(crcv)) and any(x.get('kind') in ('BinaryOperator', 'CXXOperatorCallExpr') and (ref_decl(kids(x)[0] if x.get('kind') == 'BinaryOperator' else kids(x)[1]) or {}).get('id') == crcv['id'] and any(y is crcs[1] for y in walk(x)) for x in walk(body_of(W)))
         ctx.check(okc, R, 'chunk|crc-chain', W, 'crc32(0, type, 4) then crc32(crc, data, size)', 'CRC does not cover exactly the type followed by the data')
         # zlib: crc32(crc, Z_NULL, len) returns the *initial* value 0, not crc.  A chunk without payload
         # (IEND) is written with a null data pointer, so the payload update must be skipped for it
